@@ -703,9 +703,11 @@ class Engine:
             cur = work.pop()
             try:
                 while cur.outcome is None:
+                    cur._mark = len(cur.trace)
                     self.step(cur)
             except ForkRequest as fr:
                 key = fr.key
+                del cur.trace[cur._mark:]     # the statement is re-executed in each branch: undo its events
                 for i, (choice, cond) in enumerate(fr.conds):
                     mm = cur if i == len(fr.conds) - 1 else copy.deepcopy(cur)
                     mm.pc.append(cond)
